@@ -204,7 +204,7 @@ impl Property for C03 {
         true
     }
     fn case_timeout(&self) -> std::time::Duration {
-        std::time::Duration::from_secs(15)
+        std::time::Duration::from_secs(30)
     }
     fn describe(&self, bytes: &[u8]) -> J {
         let (name, p, depth, budgets) = decode(bytes);
